@@ -63,4 +63,64 @@ def firstOcc [DecidableEq α] : List α → List α
   | [] => []
   | x :: xs => x :: (firstOcc xs).filter (· ≠ x)
 
+/-! ### §18.5 Group / Aggregation / AggregateJoin -/
+
+/-- ListEval of the GROUP BY variables: the key of a solution -/
+def keyOf (keys : List Nat) (r : Row) : Key := keys.map r.get
+
+/-- one accumulator fed with the solutions of a group, in order -/
+def accRun (a : AggSpec) (rows : List Row) : AccSt := rows.foldl (fun st r => st.update a r) (initAcc a)
+
+/-- the value an aggregate takes on a group (`none` = unbound) -/
+def aggValue (a : AggSpec) (rows : List Row) : Val := (accRun a rows).value a
+
+/-- all accumulators of an Aggregator fed with the solutions of a group -/
+def foldAcc (A : List AggSpec) (rows : List Row) : List AccSt := rows.foldl (updateAll A) (A.map initAcc)
+
+/-- the values of the aggregate's argument over the group, errors (unbound, type errors) left out -/
+def argVals (a : AggSpec) (rows : List Row) : List Term := rows.filterMap (fun r => evalE a.arg r)
+
+def dedupIf [DecidableEq α] (d : Bool) (xs : List α) : List α := if d then firstOcc xs else xs
+
+def sumRat : List Rat → Rat
+  | [] => 0
+  | x :: xs => x + sumRat xs
+
+/-- the numeric ones among the argument values (before DISTINCT) -/
+def numTerms (a : AggSpec) (rows : List Row) : List Term :=
+  (argVals a rows).filter (fun t => (numericOf t).isSome)
+
+/-- the numeric ones among the (DISTINCT) argument values: (datatype, value, scale) -/
+def numArgs (a : AggSpec) (rows : List Row) : List (DT × Rat × Nat) :=
+  (dedupIf a.dist (numTerms a rows)).filterMap numericOf
+
+/-- `m` is a least element of `vals` for rdflib's key comparison (nothing in `vals` is below it) -/
+def IsMinOf (m : Term) (vals : List Term) : Prop := m ∈ vals ∧ ∀ t ∈ vals, keyLt (some t) (some m) = false
+
+/-- `m` is a greatest element of `vals` (it is below nothing in `vals`) -/
+def IsMaxOf (m : Term) (vals : List Term) : Prop := m ∈ vals ∧ ∀ t ∈ vals, keyLt (some m) (some t) = false
+
+/-- datatype of a sum: XPath numeric promotion, starting from the integer zero -/
+def promoteAll : DT → List DT → DT
+  | d, [] => d
+  | d, x :: xs => promoteAll ((typePromotion d x).getD d) xs
+
+def numericBase : List DT := [.integer, .decimal, .float, .double]
+
+def maxScale : List Nat → Nat
+  | [] => 0
+  | x :: xs => max x (maxScale xs)
+
+/-- MIN: unbound for no values; else a value of the group that no value of the group precedes in the SPARQL order -/
+def minOk (v : Val) (vals : List Term) : Bool :=
+  match v with
+  | none => vals.isEmpty
+  | some m => vals.contains m && vals.all (fun t => !sparqlLt (some t) (some m))
+
+/-- MAX: unbound for no values; else a value of the group that precedes no value of the group -/
+def maxOk (v : Val) (vals : List Term) : Bool :=
+  match v with
+  | none => vals.isEmpty
+  | some m => vals.contains m && vals.all (fun t => !sparqlLt (some m) (some t))
+
 end RV.C08
